@@ -134,20 +134,26 @@ func compileRegexes(cid CodeIdentifier) CodeIdentifier {
 	return cid
 }
 
+// matchRegex is r.MatchString(s), except that a pattern that failed to compile (r == nil, see compileRegexes)
+// matches nothing instead of dereferencing a nil *regexp.Regexp.
+func matchRegex(r *regexp.Regexp, s string) bool {
+	return r != nil && r.MatchString(s)
+}
+
 // equalOnNonEmptyFields returns true if each of the receiver's fields are either equal to the corresponding
 // argument's field, or the argument's field is empty
 //
 //gocyclo:ignore
 func (cid *CodeIdentifier) equalOnNonEmptyFields(cidRef CodeIdentifier) bool {
 	if cidRef.computedRegexs != nil {
-		return ((cidRef.computedRegexs.contextRegex.MatchString(cid.Context)) || (cidRef.Context == "")) &&
-			((cidRef.computedRegexs.packageRegex.MatchString(cid.Package)) || (cidRef.Package == "")) &&
-			((cidRef.computedRegexs.packageRegex.MatchString(cid.Interface)) || (cidRef.Interface == "")) &&
-			((cidRef.computedRegexs.methodRegex.MatchString(cid.Method)) || (cidRef.Method == "")) &&
-			((cidRef.computedRegexs.receiverRegex.MatchString(cid.Receiver)) || (cidRef.Receiver == "")) &&
-			((cidRef.computedRegexs.fieldRegex.MatchString(cid.Field)) || (cidRef.Field == "")) &&
-			(cidRef.computedRegexs.typeRegex.MatchString(cid.Type) || cidRef.Type == "") &&
-			(cidRef.computedRegexs.valueMatchRegex.MatchString(cid.ValueMatch) || cidRef.ValueMatch == "") &&
+		return ((matchRegex(cidRef.computedRegexs.contextRegex, cid.Context)) || (cidRef.Context == "")) &&
+			((matchRegex(cidRef.computedRegexs.packageRegex, cid.Package)) || (cidRef.Package == "")) &&
+			((matchRegex(cidRef.computedRegexs.packageRegex, cid.Interface)) || (cidRef.Interface == "")) &&
+			((matchRegex(cidRef.computedRegexs.methodRegex, cid.Method)) || (cidRef.Method == "")) &&
+			((matchRegex(cidRef.computedRegexs.receiverRegex, cid.Receiver)) || (cidRef.Receiver == "")) &&
+			((matchRegex(cidRef.computedRegexs.fieldRegex, cid.Field)) || (cidRef.Field == "")) &&
+			(matchRegex(cidRef.computedRegexs.typeRegex, cid.Type) || cidRef.Type == "") &&
+			(matchRegex(cidRef.computedRegexs.valueMatchRegex, cid.ValueMatch) || cidRef.ValueMatch == "") &&
 			(cidRef.Kind == cid.Kind)
 	}
 	return ((cid.Context == cidRef.Context) || (cidRef.Context == "")) &&
